@@ -38,7 +38,10 @@ P = {
          'Write-set obligations of the non-interference lemma: for every Table/IterContainer subclass of 28 modules (97 view classes) the set of view attributes and process-wide state written by __iter__ and the self-methods it reaches is computed from the real AST and must be empty or within the declared, justified set of the stateful views (sort caches, hash-join lookups, cache(), fromdicts(generator), clock); sort-cache generators proved not to read shared cache attributes.'
          ' Bounded stand-in for the rest: ' 'All interleavings of next() on 2 (thorough: 3) live iterators with abandonment and a fresh pass, over the view constructors incl. the caching ones, vs the solo pass of an identical fresh view.',
          TB + ' The lemma itself (induction over schedules) is stated, not machine-checked; stateful-view interleavings are decided by the bounded schedule enumeration only.', TECH_D),
- 'C02': B('Instrumented sources count pulled rows: 0 at construction (<= header for the named exceptions), pulls for k output rows identical for 100- and 10000-row sources, for the streaming operator catalogue and compositions.'),
+ 'C02': (True, 'proof',
+         'Constructor half: 96 public constructors (transform, util) are executed symbolically from the real AST (function body + view __init__) on symbolic sources with a ghost pull counter: no iterator is obtained / no row read at construction (header row at most for natural joins and *all functions). Per-row half: every generator verified by the stateless-body rule (cut, stack, addfield, addrownumbers, header functions, convert, select, rowmap) carries the generic obligations "at most the header pulled before the first data row", "an iteration pulls no row besides its own", "no other source iterator drained" (no read-ahead, no materialisation, independent of the source length by construction).'
+         ' Bounded stand-in for the rest: ' 'Instrumented sources count pulled rows: 0 at construction (<= header for the named exceptions), pulls for k output rows identical for 100- and 10000-row sources, for the streaming operator catalogue and compositions.',
+         TB + ' Pull counter = ghost position of list-backed source iterators (T2).', TECH_D),
  'C03': (True, 'proof',
          'Frame obligations at every in-place mutation site of the 15 transform modules (129 sites): a flow-sensitive origin analysis over the real AST proves the receiver is a container created in the same activation and not yet yielded (fresh / source / argument / yielded lattice, branches merged conservatively, loops to fixpoint); the stateless-body proofs of C12/C13 add symbolic frame obligations on Source/Yielded objects.'
          ' Bounded stand-in for the rest: ' 'Deep snapshots of sources (lists of mutable lists, ragged) before/after full and partial iteration of the operator catalogue; every yielded row compared with its copy at the end.',
@@ -71,7 +74,7 @@ P = {
 REASON_NOT_YET = 'check not built yet in this round (work in progress; see DESIGN.md section 8)'
 
 
-PENDING = {'C02', 'C05', 'C11'}   # bounded modules still being triaged: not claimed until they are clean
+PENDING = set()   # bounded modules still being triaged: not claimed until they are clean
 
 
 def main():
